@@ -285,3 +285,52 @@ theorem indexFetch_spec {D : Type} (bits : Nat) (readDoc : Nat → Nat → D) (p
     rw [setAll_length]; simp; omega
 
 end SV.Fetch
+
+namespace SV.Fetch
+
+/-! ## reading one block in several steps -/
+
+/-- cut a list into consecutive pieces of at most `n` elements (`fuel` >= length) -/
+def piecesOf {α : Type} (n : Nat) : Nat → List α → List (List α)
+  | 0, _ => []
+  | _ + 1, [] => []
+  | fuel + 1, x :: xs => (x :: xs).take n :: piecesOf n fuel ((x :: xs).drop n)
+
+theorem piecesOf_flatten {α : Type} (n : Nat) (hn : 1 ≤ n) (fuel : Nat) (l : List α) (hf : l.length ≤ fuel) :
+    (piecesOf n fuel l).flatten = l := by
+  induction fuel generalizing l with
+  | zero =>
+    have : l = [] := List.eq_nil_of_length_eq_zero (by omega)
+    subst this; rfl
+  | succ fuel ih =>
+    cases l with
+    | nil => rfl
+    | cons x xs =>
+      unfold piecesOf
+      rw [List.flatten_cons, ih _ (by simp only [List.length_drop, List.length_cons] at *; omega),
+        List.take_append_drop]
+
+/-- one block read in steps of at most `n` (offset, destination) pairs: every step reads its offsets and stores each
+document at the destination paired with ITS offset -/
+def scatterGroupBatched {D : Type} (readDoc : Nat → Nat → D) (n : Nat) (res : List (Option D)) (g : Group) :
+    List (Option D) :=
+  (piecesOf n (g.index.zip g.offsets).length (g.index.zip g.offsets)).foldl
+    (fun r piece => piece.foldl (fun r p => r.set p.1 (some (readDoc g.block p.2))) r) res
+
+theorem foldl_pieces {α β : Type} (f : β → α → β) (ps : List (List α)) (b : β) :
+    ps.foldl (fun r piece => piece.foldl f r) b = ps.flatten.foldl f b := by
+  induction ps generalizing b with
+  | nil => rfl
+  | cons p t ih => simp only [List.foldl_cons, List.flatten_cons, List.foldl_append, ih]
+
+/-- **the result of a block does not depend on how its requested documents are batched**: for every step size
+`n >= 1` the stepwise read equals the single read - a batched implementation has to advance offsets and destinations
+together -/
+theorem scatterGroupBatched_eq {D : Type} (readDoc : Nat → Nat → D) (n : Nat) (hn : 1 ≤ n) (res : List (Option D))
+    (g : Group) : scatterGroupBatched readDoc n res g = scatterGroup readDoc res g := by
+  unfold scatterGroupBatched scatterGroup
+  rw [foldl_pieces, piecesOf_flatten n hn _ _ (Nat.le_refl _)]
+  rw [List.zip_map_right, List.foldl_map]
+  rfl
+
+end SV.Fetch
